@@ -478,6 +478,9 @@ class ServerWorld:
         the app callable ended."""
         if req.seq_done is not None:
             return
+        red = getattr(self, 'redact', None)
+        if red and req.escaped:
+            req.escaped = req.escaped.replace(red, '{root}')
         req.seq_done = self.k.ev('http.done', rid=req.rid, st=req.status,
                                  esc=req.escaped)
         req.t_done = self.k.now
